@@ -70,6 +70,10 @@ def render(cid: int, style: str, owner: str, params: list[tuple[str | None, str 
         ret = " -> tuple[" + ", ".join(h or "int" for h in rhints) + "]"
     pdoc = [(n, d) for n, (_, d) in zip(names, params, strict=True)]
     rdoc = [(f"r{i}" if style == "NUMPYDOC" else None, d) for i, (_, d) in enumerate(results) if d]
+    if owner == "tuple_whole":
+        # ONE docstring entry that documents the whole tuple a function returns
+        doc = results[0][1]
+        return f'def f{cid}(){ret}:\n    """{docstring(style, [], [(None, doc)] if doc else [], "    ")}"""\n    ...\n'
     if owner == "static_selfnames":
         return f'class K{cid}:\n    @staticmethod\n    def f{cid}({sig}){ret}:\n        """{docstring(style, pdoc, rdoc, "        ")}"""\n        ...\n'
     if owner == "ext_hint":
@@ -108,6 +112,8 @@ def enumerate_cases(tier: str, style: str):
             yield "function", [], [r1, r2]
     for h in EXT_HINTS:
         yield "ext_hint", [(h, None)], []
+    for doc in (None, "tuple[int, str]", "tuple[int, int]"):
+        yield "tuple_whole", [], [("tuple[int, str]", doc)]
     if tier == "thorough":
         for p1, p2 in itertools.product(pairs, repeat=2):
             for r in [(None, None), ("int", "int"), ("int", "str"), (None, "str"), ("str", None)]:
@@ -134,7 +140,7 @@ def lab(owner, params, results) -> str:
 
 def run(rep: Report, tier: str, seed: int) -> None:
     rep.rule = (
-        "per parameter and per result: hint in {absent,int,str,list[int],tuple[int,str],tuple[str,int],SameK,OtherK} x docstring type in the same set (SameK/OtherK: classes every case module defines under the same short names); one varied parameter (alone and next to a fixed one) for function/method/constructor and for a function / static method whose explicit parameters are NAMED self and cls, one varied result, two results (numpydoc)"
+        "per parameter and per result: hint in {absent,int,str,list[int],tuple[int,str],tuple[str,int],SameK,OtherK} x docstring type in the same set (SameK/OtherK: classes every case module defines under the same short names); one varied parameter (alone and next to a fixed one) for function/method/constructor and for a function / static method whose explicit parameters are NAMED self and cls, one varied result, two results (numpydoc), a tuple[int, str] return documented by ONE entry (absent / same tuple / tuple[int, int])"
         + ("; full product for two parameters x 5 result situations" if tier == "thorough" else "")
         + "; x 3 structured docstring styles; every case analysed under all four (preference, warning) pairs; distinct = distinct (style, case label)"
     )
@@ -212,6 +218,27 @@ def run(rep: Report, tier: str, seed: int) -> None:
                         viol("warning-count", f"more:ext:{hint}:{tsp}", {"expected_warnings": 0, "logged": n_warn}, Opts(docstyle=style, tsp=tsp, tsw="WARN"))
                     else:
                         rep.ok("warning-count")
+                continue
+            if owner == "tuple_whole":
+                doc = results[0][1]
+                for tsp in ("CODE", "DOCSTRING"):
+                    o = Opts(docstyle=style, tsp=tsp, tsw="WARN")
+                    hits = idx[(tsp, "WARN")].find(f"f{c.cid}", "fun")
+                    if len(hits) != 1:
+                        continue
+                    got = [norm(r.type) for r in (hits[0][2].results or [])]
+                    exp = [_I, _I] if (tsp == "DOCSTRING" and doc == "tuple[int, int]") else [_I, _S]
+                    if got == exp:
+                        rep.ok(f"result-type:{tsp}")
+                    else:
+                        viol("result-type", f"tuple-whole:{tsp}:doc={doc}", {"expected": [str(e) for e in exp], "observed": [r.type.render() if r.type else None for r in (hits[0][2].results or [])]}, o)
+                    fid = f"/f{c.cid}'"
+                    n_warn = sum(1 for lvl, msg in obs_by[(tsp, "WARN")].logs if lvl == "WARNING" and msg.startswith("Different type hint and docstring types") and fid in msg)
+                    ok = (n_warn == 0) if doc in (None, "tuple[int, str]") else (n_warn >= 1)
+                    if ok:
+                        rep.ok("warning-count")
+                    else:
+                        viol("warning-count", f"{'more' if n_warn else 'fewer'}:tuple-whole:{tsp}:doc={doc}", {"logged": n_warn}, o)
                 continue
             for tsp in ("CODE", "DOCSTRING"):
                 o = Opts(docstyle=style, tsp=tsp, tsw="WARN")
